@@ -196,7 +196,27 @@ def r18_4(ctx: Ctx) -> None:
         ok_amt = unparse(amt) == "frame.size_Mbits"
         ctx.record("R18.4", ctx.key(f, "accounted amount is frame.size_Mbits"), f.loc(acc[0].ast), ok_amt, f"adds {unparse(amt)}")
         lo, hi = g.count_range(lambda n: n in acc)
-        ctx.record("R18.4", ctx.key(f, "accounted at most once per frame"), f.loc(acc[0].ast), hi <= 1, f"accounting executed {lo}..{hi} times per call")
+        ctx.record("R18.4", ctx.key(f, "accounted exactly once per transmitted frame"), f.loc(acc[0].ast), (lo, hi) == (1, 1),
+                   f"accounting executed {lo}..{hi} times per call" + ("" if (lo, hi) == (1, 1) else
+                                                                       " - a path puts a frame on the medium without accounting for it (or twice)"))
+        # after the hand-off the counter may only be *restored* on the edge where the receiver refused the frame (nothing was
+        # sent during a refused delivery); any other plain store after delivery wipes out the load of frames sent meanwhile
+        plain = [n for n in g.nodes if n.kind == "stmt" and isinstance(n.ast, ast.Assign) and any(attr in unparse(t) for t in n.ast.targets)]
+        for st in plain:
+            after = any(g.path_avoiding([st], lambda e: False, start=d) is not None for d in deliver)
+            if not after:
+                continue
+
+            def refused(e) -> bool:
+                if not (e.label and e.label[0] == "cond" and e.label[2] is False):
+                    return False
+                x = ld.expand(e.label[1])
+                return isinstance(x, ast.Call) and call_name(x) == "receive_frame"
+
+            p = g.path_avoiding([st], refused)
+            ctx.record("R18.4", ctx.key(f, "no overwrite of the load after the hand-off except on refusal"), f.loc(st.ast), p is None,
+                       "the only store after delivery restores the counter when the receiver refused the frame" if p is None else
+                       f"`{unparse(st.ast)[:60]}` overwrites the counter after delivery: the load of frames sent during the delivery is lost", path_text(p))
 
 
 def check(ctx: Ctx) -> None:
